@@ -89,8 +89,9 @@ def solve(formula, display=True, log=False, params={}):
 
     try:
         if grb.Status in (gp.GRB.INFEASIBLE, gp.GRB.INF_OR_UNBD,
-                          gp.GRB.UNBOUNDED):
-            # an incumbent of an unbounded MILP is not a solution
+                          gp.GRB.UNBOUNDED) or grb.SolCount == 0:
+            # an incumbent of an unbounded MILP is not a solution, and
+            # e.g. a run stopped for numerical trouble holds none at all
             raise AttributeError('No optimal solution.')
         solution = Solution('Gurobi', grb.ObjVal, np.array(grb.getAttr('X')),
                             grb.Status, grb.Runtime, y=y)
